@@ -373,18 +373,20 @@ def hasharr_jobs(tier):
     jobs = [Job("hasharr-bigkey", ["imagemc/hasharr.c"], ["bigkey"], wraps=VA_WRAPS, weight=1)]
     jobs.append(Job("hasharr-ctor", ["imagemc/hasharr.c"], ["ctor", 1200 if X else 600], wraps=VA_WRAPS, weight=1))
     jobs.append(Job("hasharr-chain", ["imagemc/hasharr.c"], ["chain", 33000], wraps=VA_WRAPS, flavour="asan" if X else "plain", weight=30))
-    for m in ([1, 2, 3, 4, 5, 6, 7] if X else [1, 2, 3, 4, 5]):
+    for m in ([1, 2, 3, 4, 5, 6, 7] if X else [1, 2, 3, 4]):
         jobs.append(Job("hasharr-M%d" % m, ["imagemc/hasharr.c"], [m], wraps=VA_WRAPS, weight=10 ** max(0, m - 2)))
+    if not X:   # quick: M = 5 as every history of <= 4 operations (its closure takes 90 s and is part of the thorough tier)
+        jobs.append(Job("hasharr-M5-depth4", ["imagemc/hasharr.c"], [5, 4], wraps=VA_WRAPS, weight=1000))
     jobs.append(bigfmt_job("qhasharr"))
     return jobs
 
 
 @prop("C06", "model_checking",
-      "BFS over every reachable memory image of a static hash table with M = 1..5 slots (thorough ..7) and a universe of six "
+      "BFS over every reachable memory image of a static hash table with M = 1..4 slots plus every history of <= 4 operations for M = 5 (thorough: closure for M = 1..7) and a universe of six "
       "keys chosen with an independent MurmurHash3: two short keys with home slot 0, one with home 1, one with home M-1 "
       "(wrap-around probing; the first collision lands in a foreign home slot and later forces relocation), two 21-byte keys "
-      "with the same length, 16-byte prefix and home (matched by length+prefix+MD5 only); value lengths 1, 32, 33, 98, 99 on "
-      "both sides of every slot boundary. Ops: put / put_by_obj, remove / remove_by_obj, remove_by_idx(every slot), clear. "
+      "with the same length and 16-byte prefix and home 1 (matched by length+prefix+MD5 only; two collision chains interleave); value lengths 1, 32, 33, 98, 99 on "
+      "both sides of every slot boundary plus a second 33-byte value equal to the first up to an embedded NUL. Ops: put / put_by_obj, remove / remove_by_obj, remove_by_idx(every slot), clear, the documented getnext + remove_by_idx(idx-1) loop. "
       "Oracle: map model for get of every key and a full getnext walk; size() triple = (keys, M, sum of slots(len)); a put "
       "succeeds iff a slot is free and the value fits into free + released slots, else ENOBUFS, other keys untouched, own key "
       "unchanged or absent; remove_by_idx succeeds iff that slot holds a key (indexes -1, M, M+1 included). Plus a 65535-byte key "
